@@ -13,7 +13,6 @@ import (
 	"net"
 	"os"
 	"reflect"
-	"strings"
 	"sync"
 	"sync/atomic"
 	"time"
@@ -298,10 +297,9 @@ func recOf(cx *layer4.Connection) *ConnRec {
 	if r := lookup(id); r != nil {
 		return r
 	}
-	if strings.HasPrefix(id, "tcp:") {
-		return orphan(id) // real sockets only: scripted connections are always tracked before they are offered
-	}
-	return nil
+	// Not tracked (yet): with real sockets a handler can run before the harness knows the connection's id, and a
+	// harness that offers a scripted connection a moment before it calls Track must not lose the first events either.
+	return orphan(id)
 }
 
 // ---------------------------------------------------------------------------
